@@ -181,9 +181,9 @@ DIRECTED = [
         S(0, ops=[("sleep", 2), ("hoston", 1), ("sleep", 1)])]},
     # suspend and resume requests on one target issued in the same scheduling round, in both orders
     {"hosts": 2, "scripts": [
-        S(0, ops=[("sleep", 1), ("suspend", 2), ("sleep", 2), ("resume", 2), ("sleep", 1), ("resume", 2), ("sleep", 3), ("resume", 2)]),
-        S(0, ops=[("sleep", 1), ("resume", 2), ("sleep", 3), ("suspend", 2)]),
-        S(1, ops=[("sleep", 0.5), ("sleep", 1), ("exec", 1e9), ("sleep", 1)])]},
+        S(0, ops=[("sleep", 1), ("resume", 2), ("sleep", 2), ("suspend", 2), ("sleep", 1), ("resume", 2), ("sleep", 3)]),
+        S(0, ops=[("sleep", 1), ("suspend", 2), ("sleep", 2), ("resume", 2), ("sleep", 3)]),
+        S(1, ops=[("sleep", 0.5), ("sleep", 1), ("sleep", 1), ("exec", 1e9), ("sleep", 1)])]},
 ]
 
 # minimal witnesses of the open known findings (always run, on the plain flavour)
@@ -205,6 +205,12 @@ KNOWN = [
         S(0, ops=[("sleep", 1), ("hostoff", 1), ("sleep", 1), ("killall",), ("sleep", 3)]),
         S(1, autorestart=1, onexit=1, ops=[("sleep", 10)]),
         S(0, ops=[("sleep", 2), ("hoston", 1), ("sleep", 3)])]},
+    # F-C11-c, daemon clause: a daemon re-created by a reboot in the round in which the last regular actor ends is killed by the daemon
+    # rule in the round of its creation, and survives the end of the simulation
+    {"hosts": 2, "scripts": [
+        S(0, daemon=1, ops=[("sleep", 0.5), ("hostoff", 1), ("sleep", 0.5), ("hoston", 1), ("sleep", 5)]),
+        S(1, daemon=1, autorestart=1, onexit=1, ops=[("sleep", 10)]),
+        S(0, ops=[("sleep", 1)])]},
     # F-C11-b: set_kill_time twice, the later call asking for the earlier date: the first timer fires on a dead actor
     {"hosts": 2, "scripts": [
         S(1, onexit=1, ops=[("killtime", 5), ("killtime", 3), ("sleep", 10)]),
